@@ -558,12 +558,14 @@ pub fn plan_histories(tier: Tier) -> Vec<Plan> {
         Layer::Filter(1),
         Layer::Not("a/**".into(), NotForm::Text),
         Layer::Not("**/b".into(), NotForm::Text),
+        Layer::Not(".a/**".into(), NotForm::Text),
     ];
     let bases = vec![
         BaseWalk::Path,
         BaseWalk::Glob("**".into()),
         BaseWalk::Glob("*/*".into()),
         BaseWalk::Glob("a/**".into()),
+        BaseWalk::Glob("{a,b}/**".into()),
     ];
     match tier {
         Tier::Quick => vec![Plan {
@@ -724,7 +726,7 @@ pub fn c13_c16(tier: Tier, which: &'static str) -> i32 {
                                 b.sort();
                                 if a != b {
                                     rep.alarm(Alarm {
-                                        class: None,
+                                        class: classify_stack(base, perm),
                                         key: format!("perm {} {:?} {:?} {:?}", world.describe(), base, perm, h),
                                         msg: format!(
                                             "order dependence over {} in {} with history [{}]: {} yields {:?} but {} yields {:?}",
@@ -803,7 +805,7 @@ pub fn negation_layers(tier: Tier) -> Vec<Layer> {
     for p in &pats {
         out.push(Layer::Not(p.clone(), NotForm::Text));
     }
-    let small = fs_globs(2);
+    let small = fs_globs(tier.pick(1, 2));
     for p in &small {
         out.push(Layer::Not(p.clone(), NotForm::Compiled));
         out.push(Layer::Not(p.clone(), NotForm::Owned));
@@ -819,11 +821,14 @@ pub fn negation_layers(tier: Tier) -> Vec<Layer> {
         }
     }
     let picks = ["", "a", "*", "a/**", "**/a", "**", "{a/**,b}", "a/*", "**/{a}", "<a/>*", "?/**", "[!a]*", "a/{b/**,a}"];
-    for p in picks {
-        for q in picks {
+    for (i, p) in picks.iter().enumerate() {
+        for (j, q) in picks.iter().enumerate() {
             if Glob::new(p).is_ok() && Glob::new(q).is_ok() {
                 out.push(Layer::Not(p.to_string(), NotForm::AnyText(q.to_string())));
-                out.push(Layer::Not(p.to_string(), NotForm::AnyNested(q.to_string())));
+                // nested combinators: all pairs in the thorough tier, a band in the quick tier
+                if tier == Tier::Thorough || (i + 1 == j || i == j + 2) {
+                    out.push(Layer::Not(p.to_string(), NotForm::AnyNested(q.to_string())));
+                }
             }
         }
     }
@@ -850,6 +855,9 @@ pub fn c03(tier: Tier) -> i32 {
         BaseWalk::Glob("*/*".into()),
         BaseWalk::Glob("a/**".into()),
         BaseWalk::Glob("**/a".into()),
+        // walks whose component programs really prune directories
+        BaseWalk::Glob("{a,b}/**".into()),
+        BaseWalk::Glob("[!a]*/*".into()),
     ];
     rep.add("worlds", worlds.len() as u64);
     let outcomes = std::sync::Mutex::new(BTreeSet::<u64>::new());
